@@ -1,12 +1,14 @@
 import Woodpile.Driver.Util
 import Woodpile.Driver.ReadN
 import Woodpile.Driver.Iovec
+import Woodpile.Driver.CodecW
 
 open Woodpile.Driver
 
 def families : List (String × Family) := [
   ("readn", ReadNFam.family),
-  ("iovec", IovecFam.family)
+  ("iovec", IovecFam.family),
+  ("codecw", CodecWFam.family)
 ]
 
 def main (args : List String) : IO UInt32 := do
